@@ -25,10 +25,14 @@ Core Lean only. What is mirrored, field by field:
   recursion unrolled over the remaining priority elements), `Iter` the iterator object,
   `runIter k` the caller's loop that takes at most `k` transactions and abandons the iterator,
   `Pool.selectN` = `Select` + that loop.  An `Iter` is a *snapshot* (remaining elements as lists);
-  the Go iterator holds pointers into the live skip lists, so the model is valid as long as no
-  `Insert`/`Remove` happens between `Select` and the last `Next()` — which is how `baseapp`
-  uses it (`mempool.SelectBy`: `for iter != nil && callback(iter.Tx()) { iter = iter.Next() }`,
-  invalid transactions are removed after the loop).
+  it describes the Go iterator as long as no `Insert`/`Remove`/`Select` happens between `Select` and
+  the last `Next()` — which is how `baseapp` uses it (`mempool.SelectBy`:
+  `for iter != nil && callback(iter.Tx()) { iter = iter.Next() }`, invalid transactions are removed
+  after the loop).
+* the iterator while the pool DOES change under it — the Go iterator holds pointers into the live
+  skip lists and the value `nextPriority` — is `LiveIter` / `LState` at the end of this file
+  (`iopen`, `inext` interleaved with pool operations); Props/C19 proves that it coincides with `Iter`
+  when undisturbed.
 * `i.priorityNode.Next().Key()` in `Next` dereferences nil when the current node is the last
   one and the candidate's key priority equals `MinValue`; this is the `panic` outcome.
 
@@ -341,7 +345,7 @@ inductive Op where
   | insert (s : String) (n : Nat) (p : Int) (id : Nat)
   | remove (s : String) (n : Nat)
   | select
-deriving Repr
+deriving DecidableEq, Repr
 
 def Pool.step (mp : Pool) : Op → Pool
   | .insert s n p id => mp.insert s n p id
@@ -356,11 +360,213 @@ inductive TxOp where
   | insert (s : String) (n : Nat) (urls : List String) (ctxPrio : Int) (id : Nat)
   | remove (s : String) (n : Nat)
   | select
-deriving Repr
+deriving DecidableEq, Repr
 
 def TxOp.toOp : TxOp → Op
   | .insert s n urls c id => .insert s n (txPriority urls c) id
   | .remove s n => .remove s n
   | .select => .select
+
+/-! ### the iterator against the LIVE pool (Insert / Remove / Select while an iterator is in use)
+
+The Go iterator holds pointers: `priorityNode` into the priority index, `senderCursors[s]` into the
+sender indices, and the value `nextPriority` it computed when `priorityNode` was last set.  An element
+that is unlinked (`skiplist.RemoveElement` → `elem.reset()`) answers `Next() = nil` from then on, but
+keeps its key and value; `Set` on an existing key only replaces the value of the SAME element.
+`Iter` above is the special case in which the pool does not change while the iterator lives. -/
+
+/-- `nextPriority` as `iteratePriority` sets it -/
+def nextPriority : Option PNode → Int
+  | none => minInt64
+  | some m => m.prio
+
+/-- the tests of `Next()` with the STORED `nextPriority` and the LIVE `priorityNode.Next()` -/
+def passesLive (scores : String → Nat → Option Score) (nextPrio : Int) (liveNext : Option PNode)
+    (s : String) (e : Tx) : Verdict :=
+  if e.prio < nextPrio then .stop
+  else if e.prio = nextPrio then
+    match liveNext with
+    | none => .panic   -- `i.priorityNode.Next().Key()` on nil
+    | some m => if weightOf scores s e.nonce < m.weight then .stop else .pass
+  else .pass
+
+/-- `senderCursors[s]`: key and current value of the element pointed to; `dead` = unlinked -/
+structure Cursor where
+  tx   : Tx
+  dead : Bool
+deriving DecidableEq, Repr
+
+/-- a non-nil `*PriorityNonceIterator` over a pool that may change under it; `sender` is
+    `pnode.sender` -/
+structure LiveIter where
+  /-- key of the element `priorityNode` points to -/
+  pnode    : PNode
+  /-- that element has been unlinked from the priority index -/
+  pdead    : Bool
+  /-- `nextPriority` -/
+  nextPrio : Int
+  /-- `senderCursors`, latest first, one entry per sender -/
+  cursors  : List (String × Cursor)
+deriving Repr
+
+inductive LiveResult where
+  | done
+  | panic
+  | at (it : LiveIter)
+deriving Repr
+
+def cursorOf (cs : List (String × Cursor)) (s : String) : Option Cursor :=
+  (cs.find? (fun p => p.1 == s)).map (·.2)
+
+def setCursor (cs : List (String × Cursor)) (s : String) (c : Cursor) : List (String × Cursor) :=
+  (s, c) :: cs.filter (fun p => p.1 != s)
+
+/-- what `cursor.Next()`, `cursor.Next().Next()`, … will give for sender `s`: the whole sender index
+    if there is no cursor yet, nothing if the cursor element was unlinked, else the elements behind it -/
+def liveRem (sidx : String → List Tx) (cs : List (String × Cursor)) (s : String) : List Tx :=
+  match cursorOf cs s with
+  | none => sidx s
+  | some c => if c.dead then [] else (sidx s).dropWhile (fun x => decide (x.nonce ≤ c.tx.nonce))
+
+/-- `priorityNode.Next()`, `.Next().Next()`, …: nothing if the element was unlinked -/
+def liveSucc (pidx : List PNode) (it : LiveIter) : List PNode :=
+  if it.pdead then [] else (pidx.dropWhile (fun k => keyCmp k it.pnode != .eq)).drop 1
+
+/-- `Tx()` -/
+def LiveIter.cur? (it : LiveIter) : Option Tx := (cursorOf it.cursors it.pnode.sender).map (·.tx)
+
+def LiveResult.cur? : LiveResult → Option Tx
+  | .at it => it.cur?
+  | _ => none
+
+def LiveResult.isPanic : LiveResult → Bool
+  | .panic => true
+  | _ => false
+
+def LiveResult.iter? : LiveResult → Option LiveIter
+  | .at it => some it
+  | _ => none
+
+/-- the iterator after `iteratePriority()` found its place (`advance` on the live remainder) -/
+def liveOfAdvance (cs : List (String × Cursor)) : IterResult → LiveResult
+  | .done => .done
+  | .panic => .panic
+  | .at x =>
+    match x.nodes with
+    | [] => .done
+    | m :: rest =>
+      .at { pnode := m, pdead := false, nextPrio := nextPriority rest.head?,
+            cursors := setCursor cs m.sender ⟨x.cur, false⟩ }
+
+/-- `it.Next()` on the pool as it is NOW -/
+def LiveIter.next (mp : Pool) (it : LiveIter) : LiveResult :=
+  match liveRem mp.sidx it.cursors it.pnode.sender with
+  | [] => liveOfAdvance it.cursors (advance mp.scores (liveSucc mp.pidx it) (liveRem mp.sidx it.cursors))
+  | e :: _ =>
+    match passesLive mp.scores it.nextPrio (liveSucc mp.pidx it).head? it.pnode.sender e with
+    | .stop => liveOfAdvance it.cursors (advance mp.scores (liveSucc mp.pidx it) (liveRem mp.sidx it.cursors))
+    | .panic => .panic
+    | .pass => .at { it with cursors := setCursor it.cursors it.pnode.sender ⟨e, false⟩ }
+
+/-- `Select`: the pool after `reorderPriorityTies` and the live iterator -/
+def Pool.liveOpen (mp : Pool) : Pool × LiveResult :=
+  (mp.selectStart.1, liveOfAdvance [] mp.selectStart.2)
+
+/-- `priorityIndex.Remove(key)` seen from an iterator: its `priorityNode` dies iff it is the
+    element that was unlinked -/
+def LiveIter.pErased (it : LiveIter) (pidx : List PNode) (key : PNode) : LiveIter :=
+  { it with pdead := it.pdead ||
+      (decide ((perase key pidx).length < pidx.length) && keyCmp key it.pnode == .eq) }
+
+/-- `senderTxs.Remove(tk)` seen from the cursors: a cursor on the unlinked element dies -/
+def killCursor (s : String) (n : Nat) (present : Bool) (p : String × Cursor) : String × Cursor :=
+  if p.1 = s ∧ p.2.tx.nonce = n ∧ present = true then (p.1, { p.2 with dead := true }) else p
+
+/-- `senderIndex.Set(key, tx)` on an existing nonce seen from the cursors: same element, new value -/
+def revalueCursor (s : String) (n : Nat) (id : Nat) (p : String × Cursor) : String × Cursor :=
+  if p.1 = s ∧ p.2.tx.nonce = n ∧ p.2.dead = false
+  then (p.1, { p.2 with tx := { p.2.tx with id := id } }) else p
+
+/-- what `Remove(s, n)` does to an iterator (`mp` is the pool BEFORE the call) -/
+def LiveIter.onRemove (it : LiveIter) (mp : Pool) (s : String) (n : Nat) : LiveIter :=
+  match mp.scores s n with
+  | none => it
+  | some sc =>
+    { it.pErased mp.pidx ⟨sc.prio, sc.weight, s, n, 0⟩ with
+      cursors := it.cursors.map (killCursor s n ((mp.sidx s).any (fun x => x.nonce == n))) }
+
+/-- what `Insert(s, n, …, id)` does to an iterator (`mp` is the pool BEFORE the call): the old
+    priority element is unlinked if the key was pending; the sender element of an existing nonce
+    keeps its identity and key and gets the new value -/
+def LiveIter.onInsert (it : LiveIter) (mp : Pool) (s : String) (n : Nat) (id : Nat) : LiveIter :=
+  { (match mp.scores s n with
+      | none => it
+      | some old => it.pErased mp.pidx ⟨old.prio, old.weight, s, n, 0⟩) with
+    cursors := it.cursors.map (revalueCursor s n id) }
+
+/-- `reorderPriorityTies` (second loop) seen from an iterator: every re-weighed element is unlinked
+    and linked again as a NEW element -/
+def liveReweigh (st : Pool × LiveIter) (di : PNode × PNode) : Pool × LiveIter :=
+  (st.1.reweigh di, st.2.pErased st.1.pidx di.1)
+
+/-- what another `Select` does to an iterator (`mp` is the pool BEFORE the call) -/
+def LiveIter.onSelect (it : LiveIter) (mp : Pool) : LiveIter :=
+  if mp.pidx.isEmpty then it else (mp.reorderKeys.foldl liveReweigh (mp, it)).2
+
+/-- a pool together with at most one iterator in use (`none`: nil, or none taken yet) -/
+structure LState where
+  pool : Pool
+  it   : Option LiveIter
+
+def LState.init : LState := ⟨Pool.empty, none⟩
+
+/-- operations of a caller that interleaves pool operations with the use of an iterator -/
+inductive LOp where
+  | pool (op : Op)
+  | iopen
+  | inext
+deriving DecidableEq, Repr
+
+/-- the outcome of `iopen` / `inext` as the caller sees it -/
+inductive Yield where
+  | none            -- pool operation, or no iterator to advance
+  | nil             -- the iterator is (now) nil
+  | panic
+  | tx (t : Tx)     -- `Tx()` of the (new) position
+deriving DecidableEq, Repr
+
+def LiveResult.yield : LiveResult → Yield
+  | .done => .nil
+  | .panic => .panic
+  | .at it => match it.cur? with
+    | some t => .tx t
+    | none => .nil
+
+def LState.step (st : LState) : LOp → LState × Yield
+  | .pool (.insert s n p id) =>
+    (⟨st.pool.insert s n p id, st.it.map (fun it => it.onInsert st.pool s n id)⟩, .none)
+  | .pool (.remove s n) =>
+    (⟨(st.pool.remove s n).1, st.it.map (fun it => it.onRemove st.pool s n)⟩, .none)
+  | .pool .select =>
+    (⟨st.pool.select.1, st.it.map (fun it => it.onSelect st.pool)⟩, .none)
+  | .iopen =>
+    let r := st.pool.liveOpen
+    (⟨r.1, r.2.iter?⟩, r.2.yield)
+  | .inext =>
+    match st.it with
+    | none => (st, .none)
+    | some it =>
+      let r := it.next st.pool
+      (⟨st.pool, r.iter?⟩, r.yield)
+
+/-- state and the list of outcomes (oldest first) after a history -/
+def lrunFrom (st : LState) : List LOp → LState × List Yield
+  | [] => (st, [])
+  | op :: rest =>
+    let r := st.step op
+    let q := lrunFrom r.1 rest
+    (q.1, r.2 :: q.2)
+
+def lrun (ops : List LOp) : LState × List Yield := lrunFrom LState.init ops
 
 end Paloma.Mempool
